@@ -32,6 +32,10 @@ SampleYX == /\ pc = "ub"
             /\ pc' = "sampled" /\ UNCHANGED <<DX, DY, d, lb>>
 Next == LbStep \/ LbDone \/ SampleXY \/ SampleYX
 Spec == Init /\ [][Next]_vars
+\* liveness: the lower-bound loop ends (d strictly decreases, lb never decreases) and, with the heuristic enabled, a sample is produced
+FairSpec == Spec /\ WF_vars(Next)
+Termination == <>(pc \in {"lbdone", "sampled"})
+LoopVariant == [][(pc = "lb" /\ pc' = "lb") => (d' < d /\ lb' >= lb)]_vars
 
 T2 == True2(DX, DY)
 LbSound == lb <= T2                                   \* in every state of the loop, not only at its end
